@@ -310,31 +310,42 @@ def _replace_data(obj: typing.Any, result: typing.Any) -> typing.Any:
     if not isinstance(result, VectorSympy):
         raise TypeError(f"can only assign a single vector to {type(obj).__name__}")
 
+    # compute every new coordinate group before assigning any of them, so that
+    # a conversion that raises leaves ``obj`` unchanged
+    azimuthal, longitudinal, temporal = None, None, None
+
     if isinstance(result, (VectorSympy2D, VectorSympy3D, VectorSympy4D)):
         if isinstance(obj.azimuthal, AzimuthalSympyXY):
-            obj.azimuthal = AzimuthalSympyXY(result.x, result.y)
+            azimuthal = AzimuthalSympyXY(result.x, result.y)
         elif isinstance(obj.azimuthal, AzimuthalSympyRhoPhi):
-            obj.azimuthal = AzimuthalSympyRhoPhi(result.rho, result.phi)
+            azimuthal = AzimuthalSympyRhoPhi(result.rho, result.phi)
         else:
             raise AssertionError(type(obj))
 
     if isinstance(result, (VectorSympy3D, VectorSympy4D)):
         if isinstance(obj.longitudinal, LongitudinalSympyZ):
-            obj.longitudinal = LongitudinalSympyZ(result.z)
+            longitudinal = LongitudinalSympyZ(result.z)
         elif isinstance(obj.longitudinal, LongitudinalSympyTheta):
-            obj.longitudinal = LongitudinalSympyTheta(result.theta)
+            longitudinal = LongitudinalSympyTheta(result.theta)
         elif isinstance(obj.longitudinal, LongitudinalSympyEta):
-            obj.longitudinal = LongitudinalSympyEta(result.eta)
+            longitudinal = LongitudinalSympyEta(result.eta)
         else:
             raise AssertionError(type(obj))
 
     if isinstance(result, VectorSympy4D):
         if isinstance(obj.temporal, TemporalSympyT):
-            obj.temporal = TemporalSympyT(result.t)
+            temporal = TemporalSympyT(result.t)
         elif isinstance(obj.temporal, TemporalSympyTau):
-            obj.temporal = TemporalSympyTau(result.tau)
+            temporal = TemporalSympyTau(result.tau)
         else:
             raise AssertionError(type(obj))
+
+    if azimuthal is not None:
+        obj.azimuthal = azimuthal
+    if longitudinal is not None:
+        obj.longitudinal = longitudinal
+    if temporal is not None:
+        obj.temporal = temporal
 
     return obj
 
